@@ -65,13 +65,13 @@ PROPS["C18"] = {
 
 PROPS["C20"] = {
     "explanation": "Bounded symbolic execution (gosx) of the real device.CompareFiles -> getRealDevice, loadSpoc, ParseConfig (cisco: lookupCmd, matchCmd, postprocessParsed, postprocessACLParts, checkReferences; linux: parseIPTables, parseRoutes), MergeSpoc and GetChanges on the repository's own test configurations in which one line is replaced by a solver-chosen member of the property's mutation family (word-prefix truncations, single-token deletions, duplications, swaps, indentation changes). Any Go run-time panic that is not errlog's bailout, and any exit status other than 0/1, is a violation; each is replayed natively.",
-    "bounds": {"quick": "ASA, IOS and Linux file-compare cases of go/testdata (files of at most 60 lines): one representative line per kind (model, argument position, indentation, first three words, word count), every 2nd of them (offset = VERIF_SEED mod 2), up to 63 mutations per line, both argument positions (device file, Netspoc code, raw, ipv6)",
+    "bounds": {"quick": "ASA, IOS and Linux file-compare cases of go/testdata (files of at most 60 lines): one representative line per kind (model, argument position, indentation, first three words, word count), up to 63 mutations per line, both argument positions (device file, Netspoc code, raw, ipv6)",
                "thorough": "every (case, file, line) triple"},
     "outside": "NSX (JSON) and PAN-OS (XML) inputs at byte level, info file and status file contents, do-approve and missing-approve front ends, hangs (step budget only), mutations of more than one line at a time",
     "selftest": "asa_raw|ios_raw|linux_raw", "selftest_thorough": "asa_|ios_|linux",
     "runs": [
         {"entry": M + "/pkg/device.VerifMutateLine", "needs_cases": True,
-         "quick": {"dedupe": "1", "stride": "2"}, "thorough": {"stride": "1"},
+         "quick": {"dedupe": "1", "stride": "1"}, "thorough": {"stride": "1"},
          "extra": {"maxpaths": 2000000},
          "covers": ["input rejected with exit status 1", "input accepted", "targets selected"]},
     ],
@@ -98,7 +98,9 @@ PROPS["C14"]["bounds"] = {"quick": PROPS["C02"]["bounds"]["quick"] + "; Linux ro
 ASA_ACL = M + "/pkg/asa.VerifASAACL"
 ASA_GRAPH = M + "/pkg/asa.VerifASAGraph"
 _graph_run = {"entry": ASA_GRAPH, "quick": {"full": "0"}, "thorough": {"full": "1"}, "extra": {"maxpaths": 2000000}}
-_graph_text = " ASA VPN object graph (asa.VerifASAGraph): device and target assembled from solver-selected blocks (VPN user -> group-policy of two commands -> vpn-filter ACL of 2..3 lines and address pool; left-over generated group-policy chain; manually created ldap attribute-map + aaa-server, group-policy and tunnel-group referencing generated or manual objects), parsed by the real parser, planned by the real GetChanges (diffConfig, addCmds, delCmds, deleteUnused, markDeleted), executed on a text-level ASA store that enforces referential integrity and sub-mode rules; anchors must expand to the same name-free content as the target, objects outside Netspoc's scope must stay byte-identical, second compare silent."
+_graph_dmz = {"entry": ASA_GRAPH, "params": {"part": "dmz"}, "covers": ["interface unknown to Netspoc on device", "unknown interface is shut down", "unknown interface with in and out access-group"]}
+_graph_cert = {"entry": ASA_GRAPH, "params": {"part": "cert"}, "covers": ["certificate map binding on device", "certificate map binding in target"]}
+_graph_text = " ASA VPN object graph (asa.VerifASAGraph): device and target assembled from solver-selected blocks (VPN user -> group-policy of two commands -> vpn-filter ACL of 2..3 lines and address pool; left-over generated group-policy chain; manually created ldap attribute-map + aaa-server, group-policy and tunnel-group referencing generated or manual objects; part dmz: an interface unknown to Netspoc, shut down or not, with inbound and optional outbound access-group, ACL names with/without -DRC-, manual object-group; part cert: certificate map + tunnel-group bound by tunnel-group-map with changed subject-name / trust-point), parsed by the real parser, planned by the real GetChanges (diffConfig, addCmds, delCmds, deleteUnused, markDeleted), executed on a text-level ASA store that enforces referential integrity and sub-mode rules; anchors must expand to the same name-free content as the target, objects outside Netspoc's scope must stay byte-identical, second compare silent."
 NSX = M + "/pkg/nsx.VerifNSX"
 
 PROPS["C01"] = {
@@ -113,6 +115,7 @@ PROPS["C01"] = {
          "covers": ["move emitted (joined delete+add)", "object-group membership edited", "changes emitted", "no change reported"]},
         {"entry": ASA_ACL, "quick": {"N": "1", "K": "8", "G": "1"}, "thorough": {"N": "3", "K": "6", "G": "1"}, "extra": {"maxpaths": 3000000}},
         dict(_graph_run, covers=["managed VPN user on device", "VPN user in target", "changes emitted", "no change reported"]),
+        _graph_cert, _graph_dmz,
     ],
 }
 PROPS["C01"]["explanation"] += _graph_text
@@ -138,13 +141,14 @@ PROPS["C07"] = {
         {"entry": NSX, "quick": {"N": "2", "G": "1", "seqs": "1"}, "thorough": {"N": "2", "G": "2", "seqs": "1"}, "extra": {"maxpaths": 5000000}},
         {"entry": M + "/pkg/device.VerifDialogueNSX", "params": {"mode": "approve"}, "covers": ["approve succeeded"]},
         dict(_graph_run, covers=["protected object checked", "unmanaged ldap attribute-map on device", "unmanaged tunnel-group on device", "unmanaged group-policy on device", "left-over generated group-policy on device"]),
+        _graph_dmz, _graph_cert,
     ],
 }
 PROPS["C07"]["explanation"] += _graph_text
 for _p in ("C08", "C14"):
     PROPS[_p]["runs"] = PROPS[_p]["runs"] + [
         {"entry": ASA_ACL, "quick": {"N": "2", "K": "6", "G": "1"}, "thorough": {"N": "2", "K": "6", "G": "2"}, "extra": {"maxpaths": 3000000}}]
-PROPS["C08"]["runs"] = PROPS["C08"]["runs"] + [_graph_run]
+PROPS["C08"]["runs"] = PROPS["C08"]["runs"] + [_graph_run, _graph_dmz, _graph_cert]
 PROPS["C08"]["explanation"] += _graph_text
 PROPS["C08"]["runs"] = PROPS["C08"]["runs"] + [
     {"entry": NSX, "quick": {"N": "2", "G": "1", "seqs": "1"}, "thorough": {"N": "2", "G": "2", "seqs": "1"}, "extra": {"maxpaths": 5000000}}]
